@@ -414,6 +414,7 @@ def fam_spelling():
         'SpFrugal': {}, 'SpThrift': {'thrift': True}, 'SpBoth': {'both': True}, 'SpOmit': {'omit_scalar_annot': True}, 'SpByte': {'byte': True},
         'SpQual': {'pkgqual': True}, 'SpSpaces': {'spaces': True}, 'SpThriftMin': {'thrift': True, 'omit_scalar_annot': True, 'omit_default_req': True},
         'SpThriftSpaces': {'thrift': True, 'spaces': True, 'byte': True},
+        'SpPadId': {'padid': True},
     }
     sm = {'codec': [{'S': 2, 'L': 2, 'M': 2, 'D': 1, 'shape': 2}, {'S': 1, 'L': 1, 'M': 1, 'D': 1, 'shape': 0}, {'S': 1, 'L': 1, 'M': 1, 'D': 1, 'shape': 1}]}
     out = [{'sd': StructDef(n, fields(sp)), 'kinds': ['codec'], 'params': sm} for n, sp in variants.items()]
